@@ -30,6 +30,8 @@ def _matches(delta, steps_c, tol=1e-6):
     for i, h in enumerate(steps_c):
         if h == 0:
             continue
+        if np.imag(h) == 0:
+            h = abs(np.real(h))      # directions are judged relative to x, not to the sign the library gave its step ("forward never below x")
         r = delta / h
         for code, u in UNITS:
             if abs(r - u) <= tol * abs(u):
